@@ -205,6 +205,13 @@ def core_check(prop, tier, seed, sd, t0):
                                 'C11_Retained and C11_AtLeastN for any number of commits, clean-ups and failed removals (unbounded in the number of steps; epochs and '
                                 'segment ids range over small finite domains)')
     nviol = len(viols)
+    if prop in ('C01', 'C03'):
+        # the same abstract index with thousands of documents per segment (BigIndexTrace.tla)
+        rc2, bcov = vextra.big_subcheck(prop, tier, seed, sd, ('%s_big_' % prop,))
+        cov['large_index'] = bcov
+        if rc2:
+            rc = 1
+            nviol += bcov.get('violations', 1)
     if prop == 'C04':
         # many different searches on one reader, each twice (Search.tla / SearchTrace.tla)
         rc2, scov = vextra.search_subcheck(prop, tier, seed, sd, ('C04_', 'C07_'))   # C04: '... namely that of the abstract index at the time it was obtained'
@@ -244,7 +251,7 @@ def setup():
                 rc = 1
         try:
             vlib.build_harness(sd)
-            for pkg in ('persistprobe', 'planprobe', 'searchprobe', 'collprobe', 'aggprobe', 'layoutprobe', 'offlineprobe'):
+            for pkg in ('persistprobe', 'planprobe', 'searchprobe', 'collprobe', 'aggprobe', 'layoutprobe', 'offlineprobe', 'bigprobe'):
                 vextra.go_build(sd, './cmd/' + pkg, pkg)
             log('harness and probes built')
         except Inconclusive as e:
